@@ -1836,3 +1836,158 @@ where
 
     Ok(all_mmcs_op_ids)
 }
+
+/// Thin public wrappers around private FRI verifier gadgets, for external verification
+/// harnesses. Only compiled with the `verif-hooks` feature.
+#[cfg(feature = "verif-hooks")]
+pub mod verif_hooks {
+    use alloc::collections::BTreeMap;
+    use alloc::vec::Vec;
+
+    use p3_circuit::CircuitBuilder;
+    use p3_field::{ExtensionField, Field, TwoAdicField};
+
+    use crate::Target;
+
+    pub fn evaluate_polynomial<EF: Field>(
+        builder: &mut CircuitBuilder<EF>,
+        coefficients: &[Target],
+        point: Target,
+    ) -> Target {
+        super::evaluate_polynomial(builder, coefficients, point)
+    }
+
+    pub fn circuit_exp_by_constant<EF: Field>(
+        builder: &mut CircuitBuilder<EF>,
+        base: Target,
+        n: usize,
+    ) -> Target {
+        super::circuit_exp_by_constant(builder, base, n)
+    }
+
+    pub fn reconstruct_evals<EF: Field>(
+        builder: &mut CircuitBuilder<EF>,
+        folded: Target,
+        siblings: &[Target],
+        index_in_group_bits: &[Target],
+    ) -> Vec<Target> {
+        super::reconstruct_evals(builder, folded, siblings, index_in_group_bits)
+    }
+
+    pub fn one_hot_from_bits<EF: Field>(
+        builder: &mut CircuitBuilder<EF>,
+        bits: &[Target],
+    ) -> Vec<Target> {
+        super::one_hot_from_bits(builder, bits)
+    }
+
+    pub fn precompute_two_adic_powers<F, EF>(
+        builder: &mut CircuitBuilder<EF>,
+        log_height: usize,
+    ) -> Vec<Target>
+    where
+        F: Field + TwoAdicField,
+        EF: ExtensionField<F>,
+    {
+        super::precompute_two_adic_powers::<F, EF>(builder, log_height)
+    }
+
+    pub fn compute_final_query_point<F, EF>(
+        builder: &mut CircuitBuilder<EF>,
+        index_bits: &[Target],
+        log_max_height: usize,
+        total_bits_consumed: usize,
+        powers_of_g: &[Target],
+    ) -> Target
+    where
+        F: Field + TwoAdicField,
+        EF: ExtensionField<F>,
+    {
+        super::compute_final_query_point::<F, EF>(
+            builder,
+            index_bits,
+            log_max_height,
+            total_bits_consumed,
+            powers_of_g,
+        )
+    }
+
+    pub fn precompute_evaluation_points<F, EF>(
+        builder: &mut CircuitBuilder<EF>,
+        unique_heights_desc: &[usize],
+        index_bits: &[Target],
+        log_global_max_height: usize,
+    ) -> BTreeMap<usize, Target>
+    where
+        F: Field + TwoAdicField,
+        EF: ExtensionField<F>,
+    {
+        super::precompute_evaluation_points::<F, EF>(
+            builder,
+            unique_heights_desc,
+            index_bits,
+            log_global_max_height,
+        )
+    }
+
+    pub fn precompute_subgroup_starts<F, EF>(
+        builder: &mut CircuitBuilder<EF>,
+        index_bits: &[Target],
+        log_max_height: usize,
+        log_arities: &[usize],
+        cumulative_bits: &[usize],
+    ) -> Vec<Target>
+    where
+        F: Field + TwoAdicField,
+        EF: ExtensionField<F>,
+    {
+        super::precompute_subgroup_starts::<F, EF>(
+            builder,
+            index_bits,
+            log_max_height,
+            log_arities,
+            cumulative_bits,
+        )
+    }
+
+    pub fn arity2_fold_at_point<EF: Field>(
+        builder: &mut CircuitBuilder<EF>,
+        e0: Target,
+        e1: Target,
+        beta: Target,
+        x0: Target,
+    ) -> Target {
+        super::arity2_fold_at_point(builder, e0, e1, beta, x0)
+    }
+
+    #[allow(clippy::too_many_arguments)]
+    pub fn fold_one_phase<F, EF>(
+        builder: &mut CircuitBuilder<EF>,
+        folded: Target,
+        siblings: &[Target],
+        beta: Target,
+        index_bits: &[Target],
+        bits_consumed: usize,
+        log_arity: usize,
+        roll_in: Option<Target>,
+        precomputed_subgroup_start: Target,
+    ) -> Target
+    where
+        F: Field + TwoAdicField,
+        EF: ExtensionField<F>,
+    {
+        super::fold_one_phase::<F, EF>(
+            builder,
+            folded,
+            siblings,
+            beta,
+            index_bits,
+            bits_consumed,
+            log_arity,
+            roll_in,
+            None,
+            None,
+            precomputed_subgroup_start,
+        )
+    }
+}
